@@ -51,6 +51,12 @@ def shared_c12_task(task):
     return relabel(p12.vc_task(task), 'C02')
 
 
+def shared_c19_task(task):
+    import props.c19 as p19
+    from pyvc.runner import relabel
+    return relabel(p19.vc_task(task), 'C02')
+
+
 def status_writes_task(task):
     """D-infinity, structural: `statuses[...]` is only ever set to False (by _muck_hole_cards) after _setup appended True
     -- a player who folded, mucked or was killed never comes back, whatever the history"""
@@ -105,6 +111,16 @@ def main(argv=None):
                               'shape': sh.as_dict(), 'timeout_ms': 40000, 'player': pl})
             tasks.append({'module': 'props.c02', 'fn': 'shared_c12_task', 'name': f'begin_hand_killing/n{sh.n}', 'contract': 'begin_hand_killing',
                           'shape': sh.as_dict(), 'timeout_ms': 40000, 'player': None})
+            # "the best hand among the live players" is judged by get_hand / get_up_hand: the hand from the known / face-up cards
+            for pl in range(sh.n):
+                for nm in ('get_hand', 'get_up_hand'):
+                    tasks.append({'module': 'props.c02', 'fn': 'shared_c12_task', 'name': f'{nm}/n{sh.n}p{pl}', 'contract': nm,
+                                  'shape': sh.as_dict(), 'timeout_ms': 40000, 'player': pl})
+        # shares are cut by the default divmod helper: exact for non-integral chips, odd chips only for integers (C19 contract)
+        from pyvc.shapes import Shape as _Shape
+        for ch in ('int', 'real'):
+            tasks.append({'module': 'props.c02', 'fn': 'shared_c19_task', 'kind': 'divmod', 'shape': _Shape(n=2, S=1, T=1, B=1, H=1).as_dict(),
+                          'chips': ch, 'timeout_ms': 60000, 'name': f'divmod/{ch}'})
     chk.run_tasks(tasks)
     chk.assumptions += [
         'hands are abstract optional strengths: State.get_up_hand -> hand_type.from_game is replaced by the C04/C05 contracts (total '
